@@ -87,7 +87,20 @@ func (w *Worker) bigCmp(a, b BigVal) *Term {
 			x, y = y, x
 		}
 		r := int64(1)
-		if w.decideBool(tc.Cmp(OpSlt, x, y)) {
+		if w.orderHint {
+			// harness-stated bound: one fixed order of the DH values (by term
+			// creation order) instead of a case split
+			lt := w.simp(tc.Cmp(OpSlt, x, y))
+			if lt.IsFalse() {
+				r = 1
+				if w.simp(tc.Eq(x, y)).IsTrue() {
+					r = 0
+				}
+			} else {
+				w.assume(lt)
+				r = -1
+			}
+		} else if w.decideBool(tc.Cmp(OpSlt, x, y)) {
 			r = -1
 		} else if w.decideBool(tc.Eq(x, y)) {
 			r = 0
